@@ -1,5 +1,5 @@
 use crate::domain_declaration::format_domain;
-use crate::math::{VariableType, float_lt};
+use crate::math::VariableType;
 use crate::parser::model_transformer::DomainVariable;
 /// A module for representing and manipulating linear programming models.
 #[allow(unused_imports)]
@@ -712,7 +712,7 @@ impl Display for LinearModel {
         };
         let offset = if self.objective_offset.is_zero() {
             "".to_string()
-        } else if float_lt(self.objective_offset, 0.0) {
+        } else if self.objective_offset < 0.0 {
             format!(" - {}", self.objective_offset.abs())
         } else {
             format!(" + {}", self.objective_offset)
